@@ -116,7 +116,18 @@ func (w *Worker) intrinsicEntryEnv(s *State, name string, fn *ssa.Function, args
 			be := s.alloc(zero(fn.Signature.Results().At(1).Type().(*types.Pointer).Elem()))
 			return adv(Tuple{Ptr{}, be})
 		}
-		en := s.alloc(zero(fn.Signature.Results().At(0).Type().(*types.Pointer).Elem()))
+		et := fn.Signature.Results().At(0).Type().(*types.Pointer).Elem()
+		en := s.alloc(zero(et))
+		// the entry carries a context with a pass result (adapters read FilterNodes/HalfOpenNodes from it)
+		if cp := structFieldPath(et, "ctx"); len(cp) == 1 {
+			ct := et.Underlying().(*types.Struct).Field(cp[0]).Type().(*types.Pointer).Elem()
+			cx := s.alloc(zero(ct))
+			if rp := structFieldPath(ct, "RuleCheckResult"); len(rp) == 1 {
+				rtt := ct.Underlying().(*types.Struct).Field(rp[0]).Type().(*types.Pointer).Elem()
+				s.store(cx.field(rp[0]), s.alloc(zero(rtt)))
+			}
+			s.store(en.field(cp[0]), cx)
+		}
 		s.ghost["env/entry"] = en
 		return adv(Tuple{en, Ptr{}})
 	case "(*" + modPrefix + "/core/base.SentinelEntry).Exit":
